@@ -10,6 +10,7 @@ structure St where
   all : List String := []                       -- ghost: everything written, oldest first
   expect : List (String × List String) := []    -- ghost: per subscribed id, tail ++ written since
   dead : Bool := false                          -- model hit a panic
+  held : List (String × List String) := []      -- answers of range requests kept by their callers
 
 def verdict (ok : Bool) (why : String) : String := if ok then "ok" else "bad:" ++ why
 
@@ -32,6 +33,17 @@ def step (s : St) (line : String) : St × String :=
       let want := showHexList (window s.b.buffer o l)
       (s, m ++ " ||| " ++ verdict (impl == want) ("window=" ++ want))
     | _, _ => (s, "bad-op")
+  | ["hold", id, o, l] => match o.toInt?, l.toInt? with
+    | some o, some l =>
+      let want := window s.b.buffer o l
+      ({ s with held := (s.held.filter (·.1 ≠ id)) ++ [(id, want)] },
+        showHexList want ++ " ||| " ++ verdict (impl == showHexList want) ("window=" ++ showHexList want))
+    | _, _ => (s, "bad-op")
+  | ["held", id] =>
+    -- an answer is a value: what was returned stays what it was, whatever is written afterwards
+    match s.held.find? (·.1 = id) with
+    | some (_, w) => (s, showHexList w ++ " ||| " ++ verdict (impl == showHexList w) "an answer handed out earlier has changed under its reader")
+    | none => (s, "none ||| ok")
   | ["len"] =>
     let n := s.b.buffer.length
     let okv := match impl.toNat? with
